@@ -320,7 +320,7 @@ class BuildMachine(Machine):
             key = f"{target}:{platform}:{op.get('version', '0')}"
             self.live[key] = obj
             self.live_body[key] = [[k, t] for k, t in op["lines"]]
-            if via == "ctor":
+            if via in ("ctor", "refused_flip"):
                 self.live_ncwb[key] = op["max_ncwb"]
         return "ok"
 
@@ -371,6 +371,12 @@ class BuildMachine(Machine):
                     obj.platform = platform
                 except DOCUMENTED:
                     self.probes["text_after_refused_flip"] += 1
+                if obj.platform != platform:
+                    # the refusal left the object on its old platform (it does since the repair
+                    # of C16-standard-remarks-to-nxos): text of the other platform is then
+                    # simply constructed
+                    return Acl(text, platform=platform, version=version,
+                               max_ncwb=op["max_ncwb"])
                 obj.line = text
                 return obj
             if via == "setter":
